@@ -10,6 +10,10 @@ import (
 	"io"
 )
 
+// RunawayPanic is what a simulated reader panics with when its caller went on
+// calling it long after it started refusing.
+const RunawayPanic = "simio: runaway reader stopped"
+
 // ErrInjected is the error simulated devices fail with.
 var ErrInjected = errors.New("simio: injected device error")
 
@@ -101,6 +105,12 @@ func (r *Reader) Read(p []byte) (int, error) {
 	}
 	if len(r.Calls) >= maxCalls {
 		r.Runaway = true
+		if len(r.Calls) >= 2*maxCalls+64 {
+			// the caller ignores errors and keeps calling: stop it the hard
+			// way (callers of the code under test recover this and report a
+			// runaway reader, see Runaway)
+			panic(RunawayPanic)
+		}
 		return r.record(len(p), 0, fmt.Errorf("simio: reader called more than %d times", maxCalls))
 	}
 	if r.failed {
